@@ -298,6 +298,18 @@ package utils
 //@   ensures implies(newLength >= 0, len(result) == newLength)
 //@ end
 
+// generic compaction helper (type-parametric; range over a slice with a map
+// lookup): ASSUMED functional contract.  The result holds, in order, the
+// elements whose index is not a key of idxsToRemove; which old index ends up at
+// position j depends on the index set only (keptIdx), not on the array, so
+// several arrays compacted with the same set stay aligned.
+//@ func RemoveElements
+//@   assumed
+//@   pure
+//@   ensures len(result) == uf("keptLen", int, idxsToRemove, len(arr))
+//@   ensures len(result) <= len(arr) && forall(j, 0, len(result), 0 <= uf("keptIdx", int, idxsToRemove, j) && uf("keptIdx", int, idxsToRemove, j) < len(arr) && result[j] == arr[uf("keptIdx", int, idxsToRemove, j)])
+//@ end
+
 // ---- set helpers (C06 fillnull): ASSUMED functional contract of a generic
 // helper (map iteration is outside the verifier's subset): the set becomes the
 // union of itself and the keys of source.
@@ -306,4 +318,18 @@ package utils
 //@   requires set != nil
 //@   modifies mapof(set)
 //@   ensures forallstr(c, haskey(set, c) == (old(haskey(set, c)) || haskey(source, c)))
+//@ end
+
+// C13 (one tenant's data never lands in another tenant's stream): the stream
+// id under which ingest looks up the segment store carries the org id as its
+// own dash-separated field, so the ids of two different orgs are different
+// strings whatever the index names are.  (The index name enters through a
+// 64-bit hash; collisions of that hash inside one org are outside this
+// contract.)  dashField1 is the uninterpreted "second dash-separated field"
+// of a string; the Sprintf rule that relates it to the argument is decided on
+// the literal format by govc (sprintfDashFields).
+//@ func CreateStreamId
+//@   props C13
+//@   requires orgId >= 0
+//@   ensures [org-is-its-own-field-of-the-stream-id] uf("dashField1", int64, result) == orgId
 //@ end
